@@ -4,6 +4,7 @@
 package main
 
 import (
+	"os"
 	"fmt"
 	"strings"
 	"time"
@@ -77,6 +78,41 @@ stages:
   mode: users
 `
 
+// the same shape with a first stage of one hour - no timer of the plan can expire (not even early) before the
+// caller's interrupt, so the first stage cannot have ended by itself - and every stage tagging the environment
+// with its number: an iteration that sees another stage's tag proves that a later stage was entered after the
+// interrupt (a late iteration of the stage that was triggering sees tag 1)
+const fileUsersAheadLongYAML = `scenario: s
+limits:
+  max-duration: %s
+  concurrency: %d
+  max-iterations: %d
+  ignore-dropped: true
+stages:
+- duration: 1h
+  mode: constant
+  rate: 1/100ms
+  jitter: 0
+  distribution: none
+  parameters:
+    C05_STAGE: "1"
+- duration: 100ms
+  mode: users
+  parameters:
+    C05_STAGE: "2"
+- duration: 100ms
+  mode: users
+  parameters:
+    C05_STAGE: "3"
+- duration: 100ms
+  mode: constant
+  rate: 5/10ms
+  jitter: 0
+  distribution: none
+  parameters:
+    C05_STAGE: "4"
+`
+
 const fileUsersFirstYAML = `scenario: s
 limits:
   max-duration: %s
@@ -117,6 +153,9 @@ func (c cfg) spec() *hlib.RunSpec {
 	case "file-users-ahead":
 		rs.Mode = "file"
 		rs.FileYAML = fmt.Sprintf(fileUsersAheadYAML, c.maxDur, c.conc, c.limit)
+	case "file-users-ahead-long":
+		rs.Mode = "file"
+		rs.FileYAML = fmt.Sprintf(fileUsersAheadLongYAML, c.maxDur, c.conc, c.limit)
 	case "file-users-first":
 		rs.Mode = "file"
 		rs.FileYAML = fmt.Sprintf(fileUsersFirstYAML, c.maxDur, c.conc, c.limit)
@@ -133,6 +172,9 @@ func (c cfg) spec() *hlib.RunSpec {
 		return func(t *f1testing.T) {
 			id := t.Iteration
 			vrt.LogQuiet("begin " + id)
+			if st := os.Getenv("C05_STAGE"); st != "" && st != "1" {
+				vrt.LogQuiet("begin-in-stage " + st)
+			}
 			t.Cleanup(func() { vrt.LogQuiet("cleanup " + id) })
 			switch c.body {
 			case "sleep30":
@@ -244,6 +286,10 @@ func oracle(c cfg, o *vrt.Outcome) {
 				beginsAfterCancel++
 			}
 			open[f[1]] = true
+		case f[0] == "begin-in-stage":
+			if c.mode == "file-users-ahead-long" && c.cancelAt >= 0 {
+				o.Fail("C05/starts-after-stop", "later-stage-entered-after-the-interrupt", "the caller interrupted the run during its first stage (one hour long); an iteration then started inside stage "+f[1]+": the plan went on to later stages after the interrupt")
+			}
 		case f[0] == "end":
 			lastEnd = o.LogClock[li]
 			delete(open, f[1])
@@ -333,7 +379,7 @@ func oracle(c cfg, o *vrt.Outcome) {
 			if d := 300*time.Millisecond - 10*time.Millisecond; d < stop {
 				stop = d
 			}
-		case "file", "file-users-first", "file-users-ahead":
+		case "file", "file-users-first", "file-users-ahead", "file-users-ahead-long":
 			if d := 600*time.Millisecond - 10*time.Millisecond; d < stop {
 				stop = d
 			}
@@ -418,6 +464,7 @@ func scenariosFor(tier string) []vrt.Scenario {
 	// config-file mode interrupted in its first stage: the stages still ahead (users stages, whose workers would
 	// each start an iteration before noticing) are not entered
 	add(b, cfg{mode: "file-users-ahead", maxDur: ms(2000), cancelAt: ms(150), body: "sleep30"})
+	add(b, cfg{mode: "file-users-ahead-long", maxDur: 3 * time.Hour, cancelAt: ms(150), body: "sleep30", conc: 2})
 	// the triggering window is over before it begins
 	add(b, cfg{mode: "constant", maxDur: ms(10), cancelAt: never, body: "sleep30", conc: 2})
 	add(b, cfg{mode: "constant", maxDur: ms(5), cancelAt: never, body: "instant"})
